@@ -2,6 +2,7 @@ package props
 
 import (
 	"fmt"
+	"math/rand"
 	"sort"
 	"strings"
 
@@ -423,6 +424,100 @@ func runC17(c *run.Ctx) {
 			}
 		})
 	}
+	// random deeper / wider types: objects with up to 9 fields, depth up to 4,
+	// tuples up to 6; the right side is the left side with a few leaves changed
+	var deepTy func(r *rand.Rand, d int) *ref.Ty
+	deepTy = func(r *rand.Rand, d int) *ref.Ty {
+		if d <= 0 || r.Intn(4) == 0 {
+			return atoms[r.Intn(len(atoms))]
+		}
+		switch r.Intn(6) {
+		case 0:
+			return ref.TList(deepTy(r, d-1))
+		case 1:
+			return ref.TMaybe(deepTy(r, d-1))
+		case 2:
+			return ref.TMap(atoms[r.Intn(len(atoms))], deepTy(r, d-1))
+		case 3:
+			n := 1 + r.Intn(3)
+			ps := make([]*ref.Ty, n)
+			for i := range ps {
+				ps[i] = deepTy(r, d-1)
+			}
+			return ref.TFun(ps, deepTy(r, d-1))
+		default:
+			n := 1 + r.Intn(9)
+			fs := make([]ref.Fld, n)
+			for i := range fs {
+				fs[i] = ref.Fld{Name: fmt.Sprintf("f%d", i), T: deepTy(r, d-1)}
+			}
+			r.Shuffle(n, func(i, j int) { fs[i], fs[j] = fs[j], fs[i] })
+			return &ref.Ty{K: ref.KObj, Fs: fs}
+		}
+	}
+	var tweak func(r *rand.Rand, t *ref.Ty) *ref.Ty
+	tweak = func(r *rand.Rand, t *ref.Ty) *ref.Ty {
+		switch t.K {
+		case ref.KList:
+			return ref.TList(tweak(r, t.El))
+		case ref.KMaybe:
+			return ref.TMaybe(tweak(r, t.El))
+		case ref.KMap:
+			return ref.TMap(t.Key, tweak(r, t.Val))
+		case ref.KObj:
+			fs := append([]ref.Fld(nil), t.Fs...)
+			r.Shuffle(len(fs), func(i, j int) { fs[i], fs[j] = fs[j], fs[i] })
+			if len(fs) > 0 && r.Intn(2) == 0 {
+				i := r.Intn(len(fs))
+				fs[i] = ref.Fld{Name: fs[i].Name, T: tweak(r, fs[i].T)}
+			}
+			return &ref.Ty{K: ref.KObj, Fs: fs}
+		case ref.KFun:
+			ps := append([]*ref.Ty(nil), t.Params...)
+			if r.Intn(2) == 0 {
+				return ref.TFun(ps, tweak(r, t.Ret))
+			}
+			i := r.Intn(len(ps))
+			ps[i] = tweak(r, ps[i])
+			return ref.TFun(ps, t.Ret)
+		}
+		if r.Intn(3) == 0 {
+			return atoms[r.Intn(len(atoms))]
+		}
+		return t
+	}
+	for i := 0; i < c.Pick(40000, 800000); i++ {
+		if !c.Mine(i) {
+			continue
+		}
+		r := c.Rng("deep", i)
+		k := 1 + r.Intn(6)
+		ss, ts := make([]*ref.Ty, k), make([]*ref.Ty, k)
+		for j := range ss {
+			ss[j] = deepTy(r, 1+r.Intn(4))
+			switch r.Intn(3) {
+			case 0:
+				ts[j] = tweak(r, ss[j])
+			case 1:
+				inst := map[string]*ref.Ty{"a": atoms[r.Intn(4)], "b": atoms[r.Intn(4)]}
+				ts[j] = tweak(r, ref.Subst(ss[j], inst))
+			default:
+				ts[j] = deepTy(r, 1+r.Intn(3))
+			}
+			if !keysOK(ts[j]) || !keysOK(ss[j]) {
+				ss[j], ts[j] = ref.TNum, ref.TNum
+			}
+		}
+		c.Case(fmt.Sprintf("deep/%d", i), func() {
+			c.Input(tupleSexp(ss) + " ~ " + tupleSexp(ts))
+			checkUnify(c, ss, ts)
+			checkEquals(c, ss[0], ts[0])
+			if k > 1 {
+				checkEqualsShared(c, ss[0], ts[0])
+			}
+			c.Distinct(tupleSexp(ss) + "~" + tupleSexp(ts))
+		})
+	}
 	// transitivity of Equals on sampled triples with permuted object fields
 	for i := 0; i < c.Pick(20000, 300000); i++ {
 		if !c.Mine(i) {
@@ -446,7 +541,7 @@ func runC17(c *run.Ctx) {
 func init() {
 	run.Register(&run.Spec{
 		ID: "C17", Run: runC17, Level: "exploration",
-		Rule: "all pairs of types of depth <= 1 over {num,str,bool,time,'a,'b,⊥} x {list, maybe, map, obj with 1-2 fields in both orders, fun} (231 types, 53 361 pairs, exhaustive: true), pairs of depth <= 2 over a reduced operand pool (all in thorough, 1/23 in quick), random 2-3 tuples with repeated variables on both sides and ground instances, Equals with one physical node used for two occurrences; fresh nodes per side as the checker presents them; " +
+		Rule: "all pairs of types of depth <= 1 over {num,str,bool,time,'a,'b,⊥} x {list, maybe, map, obj with 1-2 fields in both orders, fun} (231 types, 53 361 pairs, exhaustive: true), pairs of depth <= 2 over a reduced operand pool (all in thorough, 1/23 in quick), random 2-3 tuples with repeated variables on both sides and ground instances, random types to depth 4 with objects of up to 9 fields and tuples of up to 6 against tweaked copies (permuted fields, changed leaves, instantiations), Equals with one physical node used for two occurrences; fresh nodes per side as the checker presents them; " +
 			"monitors: Equals reflexive / symmetric / == reference structural equality; on Unify success: own occurs check over the returned substitution, substituted sides equal (⊥ on the right may face anything); pattern vs variable-free ⊥-free type: success iff the reference one-way matcher finds an instantiation. distinct = distinct ordered pair",
 		Assume:    []string{"argument tuples only as the outermost constructor", "no physical sharing between the two sides of Unify (the checker substitutes the left side freshly)"},
 		MinEvents: 50000, EventKey: "unify_pairs",
